@@ -196,6 +196,41 @@ def single_op_programs(rng):
         for post in (False, True):
             progs.append({'inputs': [[n * nc]], 'steps': [{'op': 'mkmat', 'a': 0, 'n': n, 'cols': nc, 'sym': False, 'kind': 'qr', 'perm': list(range(n))},
                                                           {'op': 'la', 'kind': 'qr', 'a': 1, 'post': post}], 'out': 2, 'out_shape': []})
+    # outer with a transposed (non-contiguous, rank-2) operand whose matrix has another consumer recorded after the outer node:
+    # the operand's adjoint is a non-contiguous view of an adjoint that is already non-zero when the pullback of outer runs
+    progs.append({'inputs': [[2, 3], [2]], 'steps': [{'op': 'transpose', 'a': 0, 'how': 'T'}, {'op': 'outer', 'a': 2, 'b': 1},
+                                                      {'op': 'bin', 'fn': 'mul', 'a': 0, 'b': 0}, {'op': 'reshape', 'a': 4, 'shape': [6], 'how': 'fn'},
+                                                      {'op': 'dot', 'a': 5, 'b': 3}], 'out': 6, 'out_shape': [2]})
+    progs.append({'inputs': [[2, 3], [2]], 'steps': [{'op': 'transpose', 'a': 0, 'how': 'fn'}, {'op': 'outer', 'a': 1, 'b': 2},
+                                                      {'op': 'bin', 'fn': 'mul', 'a': 0, 'b': 0}, {'op': 'reshape', 'a': 4, 'shape': [6], 'how': 'fn'},
+                                                      {'op': 'dot', 'a': 3, 'b': 5}], 'out': 6, 'out_shape': [2]})
+    progs.append({'inputs': [[2, 2]], 'steps': [{'op': 'getitem', 'a': 0, 'idx': [slice(None, None, -1)], 'bare': False}, {'op': 'outer', 'a': 1, 'b': 0},
+                                                 {'op': 'bin', 'fn': 'mul', 'a': 0, 'b': 0}, {'op': 'reshape', 'a': 3, 'shape': [4], 'how': 'fn'},
+                                                 {'op': 'dot', 'a': 2, 'b': 4}], 'out': 5, 'out_shape': [4]})
+    # reshape of non-contiguous data for which numpy.reshape still returns a VIEW (an axis is split or a length-1 axis added):
+    # column slice -> (N,1), column slice -> (2,2), transpose -> (M,N,1)
+    progs.append({'inputs': [[2, 2]], 'steps': [{'op': 'getitem', 'a': 0, 'idx': [slice(None), 1], 'bare': False}, {'op': 'reshape', 'a': 1, 'shape': [2, 1], 'how': 'fn'},
+                                                 {'op': 'ew', 'fn': 'pow2', 'a': 2}], 'out': 3, 'out_shape': [2, 1]})
+    progs.append({'inputs': [[4, 2]], 'steps': [{'op': 'getitem', 'a': 0, 'idx': [slice(None), 1], 'bare': False}, {'op': 'reshape', 'a': 1, 'shape': [2, 2], 'how': 'method'},
+                                                 {'op': 'ew', 'fn': 'sin', 'a': 2}], 'out': 3, 'out_shape': [2, 2]})
+    progs.append({'inputs': [[2, 3]], 'steps': [{'op': 'transpose', 'a': 0, 'how': 'T'}, {'op': 'reshape', 'a': 1, 'shape': [3, 2, 1], 'how': 'fn'},
+                                                 {'op': 'ew', 'fn': 'pow2', 'a': 2}], 'out': 3, 'out_shape': [3, 2, 1]})
+    progs.append({'inputs': [[4, 2]], 'steps': [{'op': 'getitem', 'a': 0, 'idx': [slice(0, 4, 2), 0], 'bare': False}, {'op': 'reshape', 'a': 1, 'shape': [1, 2], 'how': 'fn'},
+                                                 {'op': 'ew', 'fn': 'pow2', 'a': 2}], 'out': 3, 'out_shape': [1, 2]})
+    # augmented assignment through a slice view of a filled buffer, every operator (row = buf[lo:hi]; row op= c)
+    for fn, c_ in (('mul', 2.0), ('add', 1.5), ('sub', -0.5), ('div', 2.0), ('pow', 2), ('pow', 3)):
+        for lo, hi in ((0, 2), (1, 2)):
+            steps = [{'op': 'zeros', 'shape': [3], 'like': 0}]
+            for i in range(3):
+                steps.append({'op': 'getitem', 'a': 0, 'idx': [i], 'bare': False})
+                steps.append({'op': 'setitem', 'buf': 1, 'idx': [i], 'val': 2 + i})
+            steps.append({'op': 'iopview', 'buf': 1, 'lo': lo, 'hi': hi, 'fn': fn, 'c': c_})
+            steps.append({'op': 'ew', 'fn': 'sin', 'a': 1})
+            progs.append({'inputs': [[3]], 'steps': steps, 'out': 5, 'out_shape': [3]})
+    # trace of rectangular (tall and wide) matrices
+    for (n_, nc_) in [(3, 2), (2, 3)]:
+        progs.append({'inputs': [[n_ * nc_]], 'steps': [{'op': 'mkmat', 'a': 0, 'n': n_, 'cols': nc_, 'sym': False, 'kind': 'trace', 'perm': list(range(n_))},
+                                                       {'op': 'la', 'kind': 'trace', 'a': 1, 'post': True}], 'out': 2, 'out_shape': []})
     # transposed (non-contiguous) data into reshape, sum over every axis of a matrix, views of views
     progs.append({'inputs': [[2, 3]], 'steps': [{'op': 'transpose', 'a': 0, 'how': 'T'}, {'op': 'reshape', 'a': 1, 'shape': [6], 'how': 'fn'}], 'out': 2, 'out_shape': [6]})
     for ax in (0, 1, -1, -2, None):
@@ -401,7 +436,59 @@ def matpb_mismatch(case):
     return None
 
 
+def multiout_case(rng):
+    D, P, n = rng.randint(1, 3), rng.randint(1, 2), rng.randint(3, 5)
+    lo2 = rng.randint(0, n - 2)
+    return {'multiout': rng.choice(['views', 'views', 'same-node', 'row-col', 'view-and-whole']), 'D': D, 'P': P, 'x': rand_coeffs(rng, (D, P, n), -2, 2),
+            'a': [0, rng.randint(lo2 + 1, n - 1) + 1], 'b': [lo2, n], 'seed': rng.randrange(1 << 30)}
+
+
+def multiout_fails(case):
+    """several dependent outputs that are overlapping views of one array (or the same node listed twice): the adjoint of an
+    entry reached by two outputs is the sum of the two seeds.  z = x*x, outputs u = z[a0:a1], v = z[b0:b1] (or rows / columns
+    of the reshaped array): xbar = 2 x (ubar scattered + vbar scattered) in Taylor arithmetic"""
+    from algopy import CGraph, Function
+    x = np.array(case['x'], dtype=float)
+    D, P, n = x.shape
+    r = np.random.RandomState(case['seed'])
+    mode = case['multiout']
+    cg = CGraph()
+    fx = Function(UTPM(x.copy()))
+    fz = fx * fx
+    if mode == 'same-node':
+        outs, idxs = [fz, fz], [slice(None), slice(None)]
+    elif mode == 'view-and-whole':
+        outs, idxs = [fz[case['a'][0]:case['a'][1]], fz], [slice(case['a'][0], case['a'][1]), slice(None)]
+    elif mode == 'row-col' and n == 4:
+        fm = algopy.reshape(fz, (2, 2))
+        outs, idxs = [fm[0], fm[:, 0]], [np.array([0, 1]), np.array([0, 2])]
+    else:
+        outs = [fz[case['a'][0]:case['a'][1]], fz[case['b'][0]:case['b'][1]]]
+        idxs = [slice(case['a'][0], case['a'][1]), slice(case['b'][0], case['b'][1])]
+    cg.trace_off()
+    cg.independentFunctionList = [fx]
+    cg.dependentFunctionList = outs
+    seeds = []
+    zbar = np.zeros((D, P, n))
+    for o, ix in zip(outs, idxs):
+        sb = np.round(r.uniform(-1, 1, size=o.x.data.shape) * 8) / 8 + 0.0625
+        seeds.append(sb)
+        zbar[:, :, ix] += sb
+    try:
+        cg.pullback([UTPM(sb.copy()) for sb in seeds])
+    except Exception as ex:
+        return 'multiout-exception-%s: the reverse sweep raised %s' % (mode, type(ex).__name__)
+    want = (UTPM(zbar) * (UTPM(x.copy()) * 2.0)).data
+    got = fx.xbar.data
+    if got.shape != want.shape or not close(got, want, 1e-10):
+        return ('multiout-%s: with %d dependent outputs that overlap in memory the adjoint is not the sum of the contributions of all '
+                'outputs (max diff %s)' % (mode, len(outs), maxdiff(got, want)))
+    return None
+
+
 def replay_case(ctx, case):
+    if case.get('multiout'):
+        return multiout_fails(case)
     if case.get('superpos'):
         import revchecks
         return revchecks.op_superposition_fails(case)
@@ -461,6 +548,14 @@ def run(ctx):
             f = revchecks.op_adjoint_fails(c2)
             if f:
                 ctx.report(c2, 'failure', f)
+    # several dependent outputs overlapping in memory
+    for i in range(40 if ctx.tier == 'quick' else 400):
+        case = multiout_case(rng)
+        ctx.evaluations += 1
+        ctx.count('multiout=' + case['multiout'])
+        f = multiout_fails(case)
+        if f:
+            ctx.report(case, 'failure', f)
     # matrix pullback kernels vs the formulas of Proofs/MatPullback.lean
     for i in range(120 if ctx.tier == 'quick' else 1500):
         case = make_matpb_case(rng, ctx.tier)
